@@ -653,6 +653,7 @@ func runC03(c *Ctx) {
 	checkHeaderReservesLengthPrefix(c, "R8")
 	// R10 (shared with C06.R3): the bytes of a request follow its length word — all of them
 	c.withOnly("R3", "R10", func() { runC06(c) })
+	checkNextIDReturnsTheCounter(c, "R11")
 	// R9 (shared with C08.O3): replies are cut out of the stream at the right places — the length word is read completely
 	c.withRule("R9", func() { checkFrameLimits(c, newZWorld(p)) })
 }
